@@ -79,12 +79,18 @@ func vNext(kind, name string) uint64 {
 		}
 		return 0
 	}
-	r := vRF.Nondets[vRPos]
-	vRPos++
-	if r.Name != name && vRDiverged == "" {
-		vRDiverged = fmt.Sprintf("replay diverged: wanted %q got %q", name, r.Name)
+	// values created only inside models (which do not run natively) are
+	// skipped: take the next record with this name
+	for i := vRPos; i < len(vRF.Nondets); i++ {
+		if vRF.Nondets[i].Name == name {
+			vRPos = i + 1
+			return vParse(vRF.Nondets[i].Value)
+		}
 	}
-	return vParse(r.Value)
+	if vRDiverged == "" {
+		vRDiverged = fmt.Sprintf("replay diverged: no further record named %q", name)
+	}
+	return 0
 }
 
 func vNondetBool(name string) bool  { return vNext("bool", name) != 0 }
